@@ -89,6 +89,7 @@ func runRange(c *core.Ctx) []core.Obligation {
 	for k := range mixed {
 		delete(fieldKinds, k)
 	}
+	perFunc := map[string]int{}
 	for _, fn := range c.GeoFuncs() {
 		counts := map[string]int{}
 		core.AllInstrs(fn, func(in ssa.Instruction) {
@@ -125,6 +126,7 @@ func runRange(c *core.Ctx) []core.Obligation {
 					}
 				}
 				counts[kind]++
+				perFunc[core.FuncName(fn)]++
 				construct := fmt.Sprintf("%s:%s#%d", core.FuncName(fn), kind, counts[kind])
 				okForm := false
 				if kind == "max" {
@@ -146,6 +148,19 @@ func runRange(c *core.Ctx) []core.Obligation {
 			}
 		})
 	}
+	// the range tests of the cell-union algebra confirmed on today's tree: each of these functions keeps at least that
+	// many direct comparisons of RangeMin()/RangeMax() (a comparison that now goes through Next()/Prev() or another
+	// helper is no longer the inclusive test that was confirmed)
+	for fname, want := range rangeConfirmed {
+		got := perFunc[fname]
+		construct := "confirmed-count:" + fname
+		if got >= want {
+			obs = append(obs, core.Ob("R-RANGE", construct, "-", fname, core.Discharged, fmt.Sprintf("%d direct range comparisons (%d confirmed)", got, want)))
+		} else {
+			obs = append(obs, core.Ob("R-RANGE", construct, "-", fname, core.Violated,
+				fmt.Sprintf("%s has %d direct comparisons of a cell's RangeMin()/RangeMax(), %d were confirmed: one of its range tests was rewritten (e.g. RangeMax().Next() >= x is a different, exclusive test) or removed", fname, got, want)))
+		}
+	}
 	return obs
 }
 
@@ -154,4 +169,18 @@ func title(s string) string {
 		return "Max"
 	}
 	return "Min"
+}
+
+// rangeConfirmed: functions of the cell-id / cell-union algebra and the number of direct range comparisons read and
+// confirmed in each.
+var rangeConfirmed = map[string]int{
+	"(s2.CellID).MaxTile":                    3,
+	"(s2.CellID).Contains":                   2,
+	"(s2.CellID).Intersects":                 4,
+	"s2.CellUnionFromIntersection":           4,
+	"s2.CellUnionFromIntersectionWithCellID": 1,
+	"(*s2.CellUnion).ContainsCellID":         2,
+	"(*s2.CellUnion).IntersectsCellID":       4,
+	"(*s2.CellUnion).IsNormalized":           2,
+	"(*s2.CellUnion).IsValid":                2,
 }
